@@ -8,10 +8,11 @@ use libpna::*;
 use rand::Rng;
 use serde_json::json;
 
-const NAMES: [&str; 10] = ["a.txt", "b.txt", "dir/a.txt", "dir/c.bin", "dir/sub/d.txt", "e", "x y.txt", "ünï.dat", "dir/sub/e", "z.bin"];
-const PATTERNS: [&str; 12] = ["*.txt", "dir/*", "**/*.txt", "a.txt", "dir/sub/*", "nomatch*", "*", "**", "e", "dir/c.bin", "?.txt", "[ab].txt"];
+const NAMES: [&str; 12] = ["a.txt", "b.txt", "dir/a.txt", "dir/c.bin", "dir/sub/d.txt", "e", "x y.txt", "ünï.dat", "dir/sub/e", "z.bin", "dir/{x}", "src/{a,b}.txt"];
+const PATTERNS: [&str; 19] = ["*.txt", "dir/*", "**/*.txt", "a.txt", "dir/sub/*", "nomatch*", "*", "**", "e", "dir/c.bin", "?.txt", "[ab].txt",
+    "{a.txt,e}", "dir/{a.txt,c.bin}", "dir/sub/{d.txt,e}", "{z.bin,b.txt}", "dir/\\{x\\}", "src/{a,b}.txt", "x\\ y.txt"];
 
-fn gen_specs(rng: &mut impl Rng) -> Vec<gen::EntrySpec> {
+fn gen_specs(rng: &mut impl Rng, force_acl: bool) -> Vec<gen::EntrySpec> {
     let n = rng.gen_range(1..6);
     let mut names: Vec<&str> = NAMES.to_vec();
     (0..n)
@@ -24,18 +25,25 @@ fn gen_specs(rng: &mut impl Rng) -> Vec<gen::EntrySpec> {
                 e.perm = Some((rng.gen_range(0..3000), ["root", "nobody", "someone"][rng.gen_range(0..3)].into(), rng.gen_range(0..3000), ["root", "nogroup"][rng.gen_range(0..2)].into(), rng.gen::<u16>() & 0o7777));
             }
             if rng.gen_bool(0.3) { e.xattrs.push(("user.k0".into(), b"old".to_vec())); }
+            // access-control chunks as the CLI stores them (`--keep-acl`), next to other private chunks
+            if force_acl || rng.gen_bool(0.3) {
+                e.extras.push((*b"faCl", b"linux".to_vec()));
+                e.extras.push((*b"faCe", b"linux:d:u:alice:allow:r,w".to_vec()));
+                if rng.gen_bool(0.5) { e.extras.push((*b"faCe", b"linux::g::deny:x".to_vec())); }
+                if rng.gen_bool(0.5) { e.extras.push((*b"myTy", b"keep-me".to_vec())); }
+            }
             e
         })
         .collect()
 }
 
 /// archive with a mix of normal entries and solid blocks (blocks carry their own private chunk)
-fn build_archive(rng: &mut impl Rng, cfg: &Cfg, one_big_block: bool) -> (Vec<u8>, serde_json::Value) {
-    let mut specs = gen_specs(rng);
+fn build_archive(rng: &mut impl Rng, cfg: &Cfg, one_big_block: bool, force_acl: bool) -> (Vec<u8>, serde_json::Value) {
+    let mut specs = gen_specs(rng, force_acl);
     if one_big_block {
         // a solid block of at least four entries, so that an edit can hit its first, middle and last entry
         while specs.len() < 4 {
-            let mut more = gen_specs(rng);
+            let mut more = gen_specs(rng, force_acl);
             more.retain(|e| !specs.iter().any(|s| s.name == e.name));
             specs.extend(more);
         }
@@ -63,7 +71,22 @@ fn build_archive(rng: &mut impl Rng, cfg: &Cfg, one_big_block: bool) -> (Vec<u8>
             i += 1;
         }
     }
-    let bytes = a.finalize().unwrap();
+    let mut bytes = a.finalize().unwrap();
+    // a foreign writer may record a size with links and directories too (`fSIZ` is legal on every kind): such chunks must
+    // survive the edits like everything else
+    if rng.gen_bool(0.5) {
+        if let Ok((cs, _)) = crate::refdec::chunks(&bytes) {
+            let mut out: Vec<([u8; 4], Vec<u8>)> = vec![];
+            for (i, (t, d)) in cs.iter().enumerate() {
+                out.push((*t, d.clone()));
+                let has_size = cs[i + 1..].iter().take_while(|(t2, _)| t2 != b"FEND").any(|(t2, _)| t2 == b"fSIZ");
+                if t == b"FHED" && d.len() > 2 && d[2] != 0 && !has_size { out.push((*b"fSIZ", vec![0x10, i as u8])); }
+            }
+            let mut v = gen::SIG.to_vec();
+            for (t, d) in out { v.extend(gen::frame(&t, &d)); }
+            bytes = v;
+        }
+    }
     (bytes, json!({"layout": layout, "cfg": cfg.describe(), "entries": specs.iter().map(|e| e.to_json()).collect::<Vec<_>>()}))
 }
 
@@ -124,7 +147,10 @@ pub fn edit(ctx: &mut Ctx) {
         // the first cases of every run: one solid block of >= 4 entries, `delete` of a single entry (first, middle,
         // last in turn) and of a pattern, under both strategies
         let forced = case < 12;
-        let (bytes0, desc) = build_archive(&mut rng, &cfg, forced);
+        // … then eight `strip` runs over entries that carry access-control chunks and other private chunks, with every
+        // combination of --keep-acl and the three forms of --keep-private
+        let forced_strip = (12..20).contains(&case);
+        let (bytes0, desc) = build_archive(&mut rng, &cfg, forced, forced_strip);
         let sbx = Sbx::new("edit", case);
         let apath = sbx.path("a.pna");
         std::fs::write(&apath, &bytes0).unwrap();
@@ -137,9 +163,10 @@ pub fn edit(ctx: &mut Ctx) {
         let sel = glob_sel(&pats, &names);
         let mut args: Vec<String> = vec![];
         let mut chown_expect: Option<(Option<(u64, String)>, Option<(u64, String)>)> = None;
+        let mut strip_keep: Option<(bool, Vec<[u8; 4]>, bool, bool, bool)> = None; // (keep all private, kept types, timestamps, permission, xattrs)
         let cmd: &str;
         let model_req: String;
-        match if forced { 0 } else { rng.gen_range(0..6) } {
+        match if forced { 0 } else if forced_strip { 5 } else { rng.gen_range(0..6) } {
             0 => {
                 cmd = "delete";
                 let excl: Vec<&str> = if rng.gen_bool(0.3) { vec![PATTERNS[rng.gen_range(0..PATTERNS.len())]] } else { vec![] };
@@ -202,13 +229,19 @@ pub fn edit(ctx: &mut Ctx) {
             _ => {
                 cmd = "strip";
                 let (kt, kp, kx) = (rng.gen_bool(0.5), rng.gen_bool(0.5), rng.gen_bool(0.5));
-                let kpriv = rng.gen_range(0..3);
+                let ka = if forced_strip { case % 4 != 3 } else { rng.gen_bool(0.5) };
+                let kpriv = if forced_strip { case % 3 } else { rng.gen_range(0..3) };
                 args.extend(["strip", "a.pna"].map(String::from));
                 if kt { args.push("--keep-timestamp".into()); }
                 if kp { args.push("--keep-permission".into()); }
                 if kx { args.push("--keep-xattr".into()); }
+                if ka { args.push("--keep-acl".into()); }
                 let kpw = match kpriv { 0 => "-".to_string(), 1 => { args.push("--keep-private".into()); ".".to_string() } _ => { args.push("--keep-private".into()); args.push("myTy".into()); hexw(b"myTy") } };
-                model_req = format!("transform {strategy} strip {}{}{}0 {kpw} ", kt as u8, kp as u8, kx as u8);
+                model_req = format!("transform {strategy} strip {}{}{}{} {kpw} ", kt as u8, kp as u8, kx as u8, ka as u8);
+                let mut tys: Vec<[u8; 4]> = vec![];
+                if ka { tys.push(*b"faCl"); tys.push(*b"faCe"); }
+                if kpriv == 2 { tys.push(*b"myTy"); }
+                strip_keep = Some((kpriv == 1, tys, kt, kp, kx));
             }
         }
         // options go right after the sub-command words (before any `--`)
@@ -274,9 +307,18 @@ pub fn edit(ctx: &mut Ctx) {
                         if a.owner.as_ref() != Some(&want) { diffs.push("owner differs from the requested change (ids/names of the half that was not named, or wrong ids)"); }
                     } else if b.owner.is_none() && a.owner.is_some() { diffs.push("owner invented"); }
                 }
+                if let Some((all, tys, kt, kp, kx)) = &strip_keep {
+                    // strip's target, from its options alone: which private chunks and which metadata survive
+                    let want: Vec<([u8; 4], Vec<u8>)> = b.extras.iter().filter(|(t, _)| *all || tys.contains(t)).cloned().collect();
+                    if a.extras != want { diffs.push("private chunks kept or removed against the --keep-acl / --keep-private options"); }
+                    if (*kt && (a.c != b.c || a.m != b.m || a.a != b.a)) || (!*kt && (a.c.is_some() || a.m.is_some() || a.a.is_some())) { diffs.push("timestamps against --keep-timestamp"); }
+                    if (*kp && (a.mode != b.mode || a.owner != b.owner)) || (!*kp && (a.mode.is_some() || a.owner.is_some())) { diffs.push("permission against --keep-permission"); }
+                    if (*kx && a.xattrs != b.xattrs) || (!*kx && !a.xattrs.is_empty()) { diffs.push("xattrs against --keep-xattr"); }
+                }
                 if !diffs.is_empty() {
                     ctx.violation("C10", "an editing command changed more than the attribute it names", json!({"case":attrs,"entry":b.name,"selected":selected,"changed":diffs}));
                     if diffs.contains(&"private chunks") { ctx.violation("C13", "an editing command dropped unknown chunks of an entry", json!({"case":attrs,"entry":b.name})); }
+                    if diffs.contains(&"raw size") { ctx.violation("C13", "an editing command dropped or changed the size chunk (fSIZ) of an entry it only passes through", json!({"case":attrs,"entry":b.name,"before":format!("{:?}", b.raw_size),"after":format!("{:?}", a.raw_size)})); }
                 }
             }
         }
